@@ -350,6 +350,11 @@ fn mutate(valid: &[u8], rng: &mut Rng) -> Vec<u8> {
     b
 }
 
+/// Entry point of the libFuzzer target.
+pub fn fuzz_one(bytes: &[u8], rep: &mut Report) {
+    check_decode(bytes, rep);
+}
+
 fn run_case(gen: &str, index: u64, seed: u64, _tier: Tier, rep: &mut Report) {
     let mut rng = Rng::new(seed);
     match gen {
